@@ -15,7 +15,7 @@ package config
 
 //@ func Config.resolveElectrum
 //@   property C44
-//@   requires c != nil && rng != nil
+//@   requires c != nil
 //@   modifies c.Bitcoin
 //@   ensures [explicit-electrum-url-is-kept] len(old(c.Bitcoin.Electrum.URL)) > 0 ==> err == nil && c.Bitcoin == old(c.Bitcoin)
 //@   ensures [no-defaults-for-regtest-or-unknown] (old(c.Bitcoin.Network) == bitcoin.Regtest || old(c.Bitcoin.Network) == bitcoin.Unknown) ==> err == nil && c.Bitcoin == old(c.Bitcoin)
@@ -43,4 +43,17 @@ package config
 //@   property C44
 //@   requires c != nil
 //@   opt noframe 1
+//@   modifies ghost.resolvedNet
+//@   yields ghost.resolvedNet = result0
+//@   ensures ghost.resolvedNet == result0
 //@   ensures [both-chains-belong-to-the-selected-network] (result0 == network.Mainnet && c.Ethereum.Network == commonEthereum.Mainnet && c.Bitcoin.Network == bitcoin.Mainnet) || (result0 == network.Testnet && c.Ethereum.Network == commonEthereum.Sepolia && c.Bitcoin.Network == bitcoin.Testnet) || (result0 == network.Developer && c.Ethereum.Network == commonEthereum.Developer && c.Bitcoin.Network == bitcoin.Regtest) || (result0 == network.Unknown && err != nil && c.Ethereum.Network == commonEthereum.Unknown && c.Bitcoin.Network == bitcoin.Unknown)
+
+// The defaults are filled in for the network that was resolved from the flags:
+// ReadConfig hands resolvePeers exactly the network resolveNetworks returned
+// (mainnet when there are no flags).
+//@ ghost resolvedNet network.Type
+//@ func Config.ReadConfig
+//@   property C44
+//@   opt noframe 1
+//@   modifies ghost.resolvedNet
+//@   assert call:Config.resolvePeers : [default-peers-are-resolved-for-the-network-selected-by-the-flags] (flagSet != nil ==> arg0 == ghost.resolvedNet) && (flagSet == nil ==> arg0 == network.Mainnet)
